@@ -1117,6 +1117,13 @@ fn c04_stream(r: &Rng, out: &mut Out, n: usize) {
         let t = TMsg::Data { p: i % 4 == 1, len: None, tid: r.u16x(), sid: r.u16x(), nsnr, off, data: r.bytes(dl) };
         out.push(format!("rt {}", t.render()));
     }
+    // offset pads of every size class in a message longer than 64 KiB (the pad test must not be done in 16 bits)
+    for (i, offv) in [0usize, 1, 9, 10, 11, 100, 255, 256, 4095, 65535].iter().enumerate() {
+        let dl = 65536 + 10 + i;
+        let nsnr = if i % 2 == 0 { None } else { Some((r.u16x(), r.u16x())) };
+        let t = TMsg::Data { p: i % 3 == 0, len: None, tid: r.u16x(), sid: r.u16x(), nsnr, off: Some(*offv as u16), data: r.bytes(dl) };
+        out.push(format!("rt {}", t.render()));
+    }
     for total in [65533usize, 65534, 65535] {
         let dl = total - data_header_len(true, true, false);
         let t = TMsg::Data { p: false, len: Some(total as u16), tid: r.u16x(), sid: r.u16x(), nsnr: Some((1, 2)), off: None, data: r.bytes(dl) };
@@ -1190,6 +1197,18 @@ fn enc_stream(r: &Rng, out: &mut Out, n: usize, prefixes: bool, oversize: bool) 
             avps.push(TAvp::new("HostName", vec![hex(&vec![0x33; rest - 6])]));
             out.push(format!("enc {} {}", if total % 2 == 0 { ".".to_string() } else { "aabb".to_string() }, TMsg::Control { len: 0, tid: 1, sid: 2, ns: 3, nr: 4, avps }.render()));
         }
+        // a refused encode (caught by the caller) must leave nothing behind: ordinary messages and AVPs right after one
+        for k in 0..12usize {
+            let big = TAvp::new("Challenge", vec![hex(&vec![0x55; 1018 + k])]);
+            let m = TMsg::Control { len: 0, tid: 1, sid: 2, ns: 3, nr: 4, avps: vec![TAvp::new("MessageType", vec!["Hello".into()]), big.clone()] };
+            out.push(format!("enc {} {}", if k % 2 == 0 { ".".to_string() } else { "0102".to_string() }, m.render()));
+            out.push(format!("enc . {}", gen_control(r, 4, false).render()));
+            out.push(format!("enca . {}", big.render()));
+            out.push(format!("enca . {}", gen_avp(r, false).render()));
+            out.push(format!("enc 0a0b0c {}", gen_control(r, 3, false).render()));
+            out.push(format!("enc . {}", gen_data(r, true).render()));
+            out.push(format!("rt {}", gen_control(r, 3, false).render()));
+        }
         // hide pushing the original length over the limit
         for l in 1010..=1020usize {
             out.push(format!("hide Challenge({}) 7365637265 deadbeef . 000102030405060708090a0b0c0d0e0f", hex(&vec![0x44; l])));
@@ -1198,7 +1217,9 @@ fn enc_stream(r: &Rng, out: &mut Out, n: usize, prefixes: bool, oversize: bool) 
 }
 
 fn secret(r: &Rng) -> Vec<u8> {
-    let l = *r.pick(&[0usize, 1, 15, 16, 17, 64, 200, 5, 9]);
+    // the corners, and half of the time any length up to 130 (MD5 block boundaries of secret ‖ chunk and of
+    // type ‖ secret ‖ vector, fixed-size scratch buffers)
+    let l = if r.chance(1, 2) { *r.pick(&[0usize, 1, 15, 16, 17, 64, 200, 5, 9]) } else { r.below(131) };
     r.bytes(l)
 }
 
@@ -1336,6 +1357,19 @@ fn reveal_inner_stream(r: &Rng, out: &mut Out, thorough: bool) {
 /// C13: ciphertexts built so that the decrypted length field takes chosen values
 fn reveal_stream(r: &Rng, out: &mut Out, n: usize) {
     reveal_inner_stream(r, out, n > 100000);
+    // every secret length 0..=130 against values of one, two and three chunks, random and crafted
+    for sl in 0..=130usize {
+        for chunks in 1..=3usize {
+            let s = r.bytes(sl);
+            let rv = r.bytes(4);
+            out.push(format!("reveal Hidden({},{}) {} {}", sl % 41, hex(&r.bytes(16 * chunks)), hex(&s), hex(&rv)));
+            let payload = r.bytes(16 * chunks - 2 - (sl % 3));
+            let mut plain = ((6 + payload.len()) as u16).to_be_bytes().to_vec();
+            plain.extend_from_slice(&payload);
+            plain.extend(r.bytes(16 * chunks - plain.len()));
+            out.push(format!("reveal Hidden(7,{}) {} {}", hex(&hide_raw(7, &s, &rv, &plain)), hex(&s), hex(&rv)));
+        }
+    }
     for i in 0..n {
         let t: u16 = if r.chance(4, 5) { *r.pick(&[0u16, 1, 5, 7, 8, 12, 13, 34, 35, 39, 20, 40]) } else { r.u16x() };
         let s = secret(r);
